@@ -154,6 +154,22 @@ def run(ck):
                 "170141183460469231731687303715884105727", "170141183460469231731687303715884105728", "-170141183460469231731687303715884105728", "-170141183460469231731687303715884105729"]:
         forms += ["module M\nenum E : int64 { A = %s, B }\n" % lit, "module M\nunchecked enum E { A = %s }\n" % lit, "module M\nstruct S { tag(%s) a: int32? }\n" % lit,
                   "module M\ninterface I { op(tag(%s) a: int32?) -> tag(%s) string? }\n" % (lit, lit), "module M\nenum E { A(tag(%s) x: bool?) = %s }\n" % (lit, lit)]
+    # every inheritance graph and every containment graph over three definitions (a tail leading into a cycle, in every definition order)
+    pairs3 = [(a, b) for a in range(3) for b in range(3)]
+    for mask in range(512):
+        es = [(a, b) for k, (a, b) in enumerate(pairs3) if mask >> k & 1]
+        forms.append("module M\n" + "".join("interface I%d%s { op%d() }\n" % (i, (" : " + ", ".join("I%d" % b for (a, b) in es if a == i)) if any(a == i for a, _ in es) else "", i) for i in range(3)))
+        forms.append("module M\n" + "".join("struct T%d { %s }\n" % (i, ", ".join("f%d: %s" % (k, ("T%d?" if (a + b + k) % 3 == 0 else ("Sequence<T%d>" if (a + b + k) % 3 == 1 else "T%d")) % b) for k, (a, b) in enumerate(es) if a == i)) for i in range(3))
+                     + "struct U { d: Dictionary<int32, T0>, e: T1, f: T2 }\n")
+    # every kind of doc comment content on every kind of element that can carry one (tags that do not fit the element included)
+    bodies = ["/// text {@link S}", "/// @param x: see {@link S} and {@link Nope}", "/// @returns: a {@link M::S}", "/// @returns x: {@link S}", "/// @see S\n/// @see Nope", "/// @throws Nope: when {@link S}",
+              "/// {@link S", "/// {@link }", "/// {@link S} {@link S} {@link S}", "/// @param", "/// @param x", "/// @foo {@link S}", "/// @param x: a\n///   {@link S}\n/// @returns: b\n///   {@link S}",
+              "/// {@param x}", "/// @see", "/// @\n/// {@}", "///\n///\n/// @param p: {@link p}"]
+    hosts = ["%sstruct S2 {}", "struct S2 {\n%sa: int32 }", "%sinterface I {}", "interface I {\n%sop(p: int32) -> int32 }", "interface I {\n%sop(p: int32) -> (a: int32, b: int32) }", "interface I {\n%sop() }",
+             "%senum E { A }", "enum E {\n%sA }", "enum E {\n%sA(x: int32) }", "enum E { A(\n%sx: int32) }", "%scustom C", "%stypealias T = int32", "%sunchecked enum E2 : uint8 {}"]
+    for b in bodies:
+        for h in hosts:
+            forms.append("module M\nstruct S {}\n" + h % (b + "\n") + "\n")
     # every white-space character (and a few look-alikes) at every gap of preprocessor directives, and in ordinary source
     spaces = ["\x0b", "\x0c", "\x1c", "\x1f", "\x85", "\xa0", "\u1680", "\u2000", "\u2003", "\u200a", "\u2028", "\u2029", "\u202f", "\u205f", "\u3000", "\u200b", "\ufeff", "\u180e", "\r", "\t", "\0"]
     for w in spaces:
@@ -163,7 +179,7 @@ def run(ck):
                     "module M\nstruct S { tag(%s1%s) a: bool? }\n"]:
             forms.append(tpl.replace("%s", w))
     o3 = core.run_impl("diags", ["diags - " + hx(t) for t in forms], chunk=200, timeout=120)
-    ck.stream("forms", description="every Unicode white-space character (and zero-width look-alikes, NUL) at every gap of every preprocessor directive and of ordinary source; every type form (primitive, optional, sequence, dictionary, result, struct/enum/interface/custom/alias names, global, unknown, module name, nested, attributed, malformed) in every type position "
+    ck.stream("forms", description="every Unicode white-space character (and zero-width look-alikes, NUL) at every gap of every preprocessor directive and of ordinary source; every inheritance and containment graph over three definitions; 17 doc comment bodies (links in overviews and in every tag, tags that do not fit, unterminated and empty links) on 13 kinds of element; every type form (primitive, optional, sequence, dictionary, result, struct/enum/interface/custom/alias names, global, unknown, module name, nested, attributed, malformed) in every type position "
               "(field, base, second base, underlying type, alias target, dictionary key/value, parameter, return tuple, enumerator field, tagged, compact, streamed, element, link); containment/alias/inheritance cycles; "
               "every program of three aliases over {name, sequence, dictionary, result} x {A, B, C, int32} (4096, exhaustive); malformed and boundary integer literals in every literal position; mixed-width and CRLF doc comments; deep nesting (300), long lists (3000), long chains (300-400), unterminated constructs")
     for t, oo in zip(forms, o3):
